@@ -10,6 +10,13 @@
 //        | V <idx> <off> <len> FileList::is_valid_piece(Piece(idx,off,len))
 //        | Q                  size_chunks, chunk_index_size(i), File offset/size/range/completed, completed/left bytes
 //        | D                  every file read back with plain open/read (NOT through libtorrent)
+//        | R                  close; open (as Download::open); bitfield allocate + unset_all; update_completed
+//                             (as Download::hash_check without resume data); open(false,0)
+//        | S <idx>            Bitfield::set(idx) only      | U   FileList::update_completed
+//        | P <file> <off> <len>   plain pread(2) of file <file> (sparse multi-GiB files are never dumped)
+//   T <cs> <layout> ...      LOADER-driven: layout entries are size[p]@dir/dir/name in TORRENT order; the bencoded
+//                             metainfo Object goes through torrent::download_add (DownloadConstructor), the ops then
+//                             run on the Download's FileList. One entry without @path = single-file torrent.
 #include "config.h"
 #include "common/util.h"
 
@@ -17,6 +24,7 @@
 #include <sys/stat.h>
 #include <unistd.h>
 #include <dirent.h>
+#include <filesystem>
 
 #include "manager.h"
 #include "data/chunk.h"
@@ -24,6 +32,10 @@
 #include "torrent/exceptions.h"
 #include "torrent/path.h"
 #include "torrent/torrent.h"
+#include "torrent/download.h"
+#include "torrent/object.h"
+#include "download/download_wrapper.h"
+#include "download/download_main.h"
 #include "torrent/data/file.h"
 #include "torrent/data/file_list.h"
 #include "torrent/data/file_manager.h"
@@ -38,16 +50,8 @@ using torrent::MemoryChunk;
 static std::string g_scratch;
 
 static void rm_rf(const std::string& dir) {
-  DIR* d = opendir(dir.c_str());
-  if (d) {
-    while (dirent* e = readdir(d)) {
-      std::string n = e->d_name;
-      if (n == "." || n == "..") continue;
-      ::unlink((dir + "/" + n).c_str());
-    }
-    closedir(d);
-  }
-  ::rmdir(dir.c_str());
+  std::error_code ec;
+  std::filesystem::remove_all(dir, ec);
 }
 
 static std::string commas(const std::vector<std::string>& v) {
@@ -58,11 +62,26 @@ static std::string commas(const std::vector<std::string>& v) {
 }
 
 struct Case {
-  std::unique_ptr<FileList> fl;
+  std::unique_ptr<FileList> own;   // direct mode
+  torrent::Download dl;            // loader mode
+  bool loader = false;
+  FileList* fl = nullptr;
   std::string root;
-  std::vector<std::string> names;
   std::vector<bool> pad;
 };
+
+// what Download::open + Download::hash_check (no resume data) + DownloadMain::start do to the FileList
+static void open_sequence(Case& c) {
+  if (c.loader) {
+    c.dl.open(0);                  // DownloadMain::open -> FileList::open(true, open_no_create); sets the queue flags
+  } else {
+    c.fl->open(true, FileList::open_no_create);
+    for (auto& f : *c.fl)
+      f->set_flags(File::flag_create_queued | File::flag_resize_queued);
+  }
+  c.fl->mutable_data()->mutable_completed_bitfield()->allocate();
+  c.fl->mutable_data()->mutable_completed_bitfield()->unset_all();
+}
 
 static std::string op_chunk(Case& c, bool by_index, const std::vector<std::string>& t) {
   size_t k = 1;
@@ -117,50 +136,101 @@ static std::string op_chunk(Case& c, bool by_index, const std::vector<std::strin
   return out;
 }
 
-static std::string run_case(const std::vector<std::string>& t, unsigned serial) {
+static std::string read_file(const std::string& path, bool& ok) {
+  int fd = ::open(path.c_str(), O_RDONLY);
+  ok = fd >= 0;
+  std::string b;
+  if (fd < 0) return b;
+  char buf[65536];
+  ssize_t n;
+  while ((n = ::read(fd, buf, sizeof buf)) > 0) b.append(buf, n);
+  ::close(fd);
+  return b;
+}
+
+static std::string run_case(std::vector<std::string> t, unsigned serial) {
   Case c;
+  if (t.at(0) == "T") { c.loader = true; t.erase(t.begin()); }
   uint32_t cs = (uint32_t)std::stoull(t.at(0));
-  std::vector<FileList::split_type> sp;
+  struct Ent { uint64_t size; bool pad; std::vector<std::string> path; };
+  std::vector<Ent> ents;
   uint64_t total = 0;
   {
     std::istringstream ls(t.at(1));
     std::string e;
     int i = 0;
     while (std::getline(ls, e, ',')) {
-      bool pad = !e.empty() && e.back() == 'p';
-      if (pad) e.pop_back();
-      uint64_t sz = std::stoull(e);
-      torrent::Path p;
-      std::string name = "f" + std::to_string(i++);
-      p.push_back(name);
-      sp.emplace_back(sz, p, pad ? File::flag_attr_padding : 0);
-      c.names.push_back(name);
-      c.pad.push_back(pad);
-      total += sz;
+      Ent en;
+      auto at = e.find('@');
+      std::string pth = at == std::string::npos ? "" : e.substr(at + 1);
+      if (at != std::string::npos) e = e.substr(0, at);
+      en.pad = !e.empty() && e.back() == 'p';
+      if (en.pad) e.pop_back();
+      en.size = std::stoull(e);
+      if (pth.empty()) en.path.push_back("f" + std::to_string(i));
+      else { std::istringstream ps(pth); std::string comp; while (std::getline(ps, comp, '/')) en.path.push_back(comp); }
+      i++;
+      total += en.size;
+      c.pad.push_back(en.pad);
+      ents.push_back(en);
     }
   }
   c.root = g_scratch + "/c" + std::to_string(serial);
   rm_rf(c.root);
 
-  c.fl = std::make_unique<FileList>();
-  // as DownloadConstructor::parse_multi_files
-  c.fl->set_multi_file(true);
-  c.fl->initialize(total, cs);
-  c.fl->split(c.fl->begin(), &*sp.begin(), &*sp.begin() + sp.size());
-  c.fl->update_paths(c.fl->begin(), c.fl->end());
-  c.fl->set_root_dir(c.root);
-  // as DownloadWrapper / Download::open: allocated empty bitfield, files to be created and resized
-  c.fl->mutable_data()->mutable_completed_bitfield()->allocate();
-  c.fl->mutable_data()->mutable_completed_bitfield()->unset_all();
-  // DownloadMain::open -> FileList::open(true, open_no_create); Download::open sets the queue flags;
-  // DownloadMain::start -> FileList::open(false, 0) creates the (empty) files.
-  c.fl->open(true, FileList::open_no_create);
-  for (auto& f : *c.fl)
-    f->set_flags(File::flag_create_queued | File::flag_resize_queued);
-  c.fl->open(false, 0);
+  if (c.loader) {
+    using torrent::Object;
+    bool single = ents.size() == 1 && t.at(1).find('@') == std::string::npos;
+    Object* o = new Object(Object::create_map());
+    Object& info = o->insert_key("info", Object::create_map());
+    info.insert_key("name", std::string("t") + std::to_string(getpid()) + "_" + std::to_string(serial));
+    info.insert_key("piece length", (int64_t)cs);
+    uint64_t np = (total + cs - 1) / cs;
+    info.insert_key("pieces", std::string(20 * np, 'h'));
+    if (single) {
+      info.insert_key("length", (int64_t)total);
+    } else {
+      Object& files = info.insert_key("files", Object::create_list());
+      for (auto& en : ents) {
+        Object f = Object::create_map();
+        f.insert_key("length", (int64_t)en.size);
+        Object& pl = f.insert_key("path", Object::create_list());
+        for (auto& comp : en.path) pl.as_list().push_back(Object(comp));
+        if (en.pad) f.insert_key("attr", std::string("p"));
+        files.as_list().push_back(f);
+      }
+    }
+    try {
+      c.dl = torrent::download_add(o, 0x5eed);
+    } catch (torrent::input_error& e) { delete o; return std::string("REJECT input ") + e.what();
+    } catch (torrent::bencode_error& e) { delete o; return std::string("REJECT bencode ") + e.what(); }
+    c.fl = c.dl.file_list();
+  } else {
+    std::vector<FileList::split_type> sp;
+    for (auto& en : ents) {
+      torrent::Path p;
+      for (auto& comp : en.path) p.push_back(comp);
+      sp.emplace_back(en.size, p, en.pad ? File::flag_attr_padding : 0);
+    }
+    c.own = std::make_unique<FileList>();
+    c.fl = c.own.get();
+    // as DownloadConstructor::parse_multi_files
+    c.fl->set_multi_file(true);
+    c.fl->initialize(total, cs);
+    c.fl->split(c.fl->begin(), &*sp.begin(), &*sp.begin() + sp.size());
+    c.fl->update_paths(c.fl->begin(), c.fl->end());
+  }
 
   std::string out;
+  try {
+    c.fl->set_root_dir(c.root);
+    open_sequence(c);
+    c.fl->open(false, 0);      // DownloadMain::start: creates directories and (empty) files
+  } catch (torrent::internal_error& e) { out = std::string("ERR:internal! open ") + e.what();
+  } catch (torrent::local_error& e) { out = std::string("ERR:local open ") + e.what(); }
+
   std::vector<std::string> op;
+  auto file_path = [&](size_t i) { return (*(c.fl->begin() + i))->frozen_path().str(); };
   auto flush_op = [&]() {
     if (op.empty()) return;
     std::string r;
@@ -188,19 +258,51 @@ static std::string run_case(const std::vector<std::string>& t, unsigned serial) 
         try { r += std::to_string(c.fl->left_bytes()); } catch (torrent::internal_error&) { r += "ERR:internal"; }
       } else if (k == "D") {
         std::vector<std::string> imgs;
-        for (size_t i = 0; i < c.names.size(); i++) {
-          std::string path = c.root + "/" + c.names[i];
-          int fd = ::open(path.c_str(), O_RDONLY);
-          if (c.pad[i]) { imgs.push_back(fd < 0 ? "P" : "P!exists"); if (fd >= 0) ::close(fd); continue; }
-          if (fd < 0) { imgs.push_back("!missing"); continue; }
-          std::string b;
-          char buf[65536];
-          ssize_t n;
-          while ((n = ::read(fd, buf, sizeof buf)) > 0) b.append(buf, n);
-          ::close(fd);
-          imgs.push_back(hex(b));
+        for (size_t i = 0; i < c.pad.size(); i++) {
+          if (i >= c.fl->size_files()) { imgs.push_back("!nofile"); continue; }
+          if (c.pad[i]) { imgs.push_back((*(c.fl->begin() + i))->is_padding() ? "P" : "P!notpadding"); continue; }
+          bool ok;
+          std::string b = read_file(file_path(i), ok);
+          imgs.push_back(ok ? hex(b) : "!missing");
         }
         r = "dump=" + commas(imgs);
+      } else if (k == "R") {
+        try {
+          if (c.loader) c.dl.close(0); else c.fl->close();
+          open_sequence(c);
+          c.fl->update_completed();
+          c.fl->open(false, 0);
+          r = "upd=ok";
+        } catch (torrent::internal_error&) { r = "upd=ERR:internal"; }
+      } else if (k == "U") {
+        try { c.fl->update_completed(); r = "upd=ok"; }
+        catch (torrent::internal_error&) { r = "upd=ERR:internal"; }
+      } else if (k == "S") {
+        uint64_t idx = std::stoull(op.at(1));
+        if (idx < c.fl->size_chunks()) { c.fl->mutable_data()->mutable_completed_bitfield()->set((uint32_t)idx); r = "set=1"; }
+        else r = "set=0";
+      } else if (k == "P") {
+        size_t i = std::stoull(op.at(1));
+        uint64_t off = std::stoull(op.at(2)), len = std::stoull(op.at(3));
+        if (i >= c.fl->size_files() || (*(c.fl->begin() + i))->is_padding()) r = "pread=none";
+        else {
+          int fd = ::open(file_path(i).c_str(), O_RDONLY);
+          if (fd < 0) r = "pread=!missing";
+          else {
+            struct stat sb;
+            ::fstat(fd, &sb);
+            std::string b(len, '\0');
+            size_t got = 0;
+            while (got < len) {
+              ssize_t n = ::pread(fd, &b[got], len - got, off + got);
+              if (n <= 0) break;
+              got += n;
+            }
+            ::close(fd);
+            b.resize(got);
+            r = "pread=" + std::to_string((uint64_t)sb.st_size) + ":" + hex(b);
+          }
+        }
       } else r = "BADOP";
     } catch (torrent::internal_error& e) { r = std::string("ERR:internal!") + e.what();
     } catch (torrent::local_error& e) { r = std::string("ERR:local ") + e.what();
@@ -209,13 +311,17 @@ static std::string run_case(const std::vector<std::string>& t, unsigned serial) 
     out += r;
     op.clear();
   };
-  for (size_t i = 2; i < t.size(); i++) {
-    if (t[i] == ";") flush_op(); else op.push_back(t[i]);
+  if (out.empty()) {
+    for (size_t i = 2; i < t.size(); i++) {
+      if (t[i] == ";") flush_op(); else op.push_back(t[i]);
+    }
+    flush_op();
   }
-  flush_op();
 
-  c.fl->close();
-  c.fl.reset();
+  try {
+    if (c.loader) torrent::download_remove(c.dl);
+    else { c.fl->close(); c.own.reset(); }
+  } catch (std::exception& e) { out += std::string(" | CLEANUP-ERR ") + e.what(); }
   rm_rf(c.root);
   return out;
 }
@@ -229,7 +335,7 @@ int main() {
   ::mkdir(g_scratch.c_str(), 0777);
 
   torrent::initialize_main_thread();
-  torrent::manager = new torrent::Manager;
+  torrent::initialize();          // Manager + disk/net/tracker threads: download_add needs them
   torrent::manager->file_manager()->set_max_open_files(256);
 
   std::string line;
